@@ -280,7 +280,10 @@ def _posoargs_end(end, _posoargs, func, *args, **kwargs):
                 end, func, sig))
         # func was bound to an instance and ``end`` named the parameter
         # that received it: nothing after it was to be converted
-        posoarg_names = set(_posoargs).intersection(p.name for p in sig)
+        posoarg_names = set(_posoargs)
+    if kwargs.get('original') is not None:
+        # a name given explicitly may also be the one of that parameter
+        posoarg_names.intersection_update(p.name for p in sig)
     return _PokTranslator(
         func, posoargs=posoarg_names,
         get=partial(_posoargs_end, end, _posoargs))
